@@ -74,6 +74,9 @@ def arg_kinds(h1, h2):
         ('plain', 'hello world', lambda: 'hello world'),
         ('obj', '${' + REG + 'OBJ1}', lambda: reg.OBJ1),
         ('obj-nested', '${' + REG + 'Namespace.inner}', lambda: reg.Namespace.inner),
+        ('obj-zero', '${' + REG + 'ZERO}', lambda: 0),          # named objects that are falsy
+        ('obj-none', '${' + REG + 'NOTHING}', lambda: None),
+        ('obj-empty', '${' + REG + 'EMPTY}', lambda: ()),
         ('res', '$res{sub.res2}', lambda: h2.last),       # evaluated after the load: the handle's cached resource
         ('res1', '$res{res1}', lambda: h1.last),
         ('handle', '$handle{sub.res2}', lambda: h2),
@@ -443,7 +446,7 @@ HARNESSES = {
     'shape': dict(fn=h_shape, nontrivial=['processors', 'explicit-id', 'auto-id', 'callbacks', 'falsy-id'],
                   required=['processors', 'explicit-id', 'auto-id', 'callbacks', 'falsy-id', 'generator-id', 'second-world']),
     'args': dict(fn=h_args, nontrivial=['kind-obj', 'kind-res', 'kind-handle', 'kind-mid-marker', 'kind-plain', 'kind-list'],
-                 required=['kind-int', 'kind-obj', 'kind-obj-nested', 'kind-res', 'kind-res1', 'kind-handle', 'kind-mid-marker',
+                 required=['kind-int', 'kind-obj', 'kind-obj-nested', 'kind-obj-zero', 'kind-obj-none', 'kind-obj-empty', 'kind-res', 'kind-res1', 'kind-handle', 'kind-mid-marker',
                            'kind-plain', 'kind-list', 'kind-dict', 'kind-none', 'res-through-composite-key',
                            'moved-and-reloaded', 'res-cached']),
     'strings': dict(kind='custom', fn=crosshair_conditions),
